@@ -1057,20 +1057,27 @@ func ruleMarkers(c *Ctx) {
 				}
 			}
 			if calleeOf(p, call) == whObj && len(call.Args) >= 1 {
-				if k, ok := constInt(p, call.Args[0]); ok {
-					hdr = append(hdr, k)
-					hdrPos = append(hdrPos, call.Pos())
-				} else {
-					hdr = append(hdr, -1)
-					hdrPos = append(hdrPos, call.Pos())
+				// the prefix: the constant among the arguments (the first one, unless a byte counter is
+				// threaded through in front of it)
+				found := int64(-1)
+				for _, a := range call.Args {
+					if k, ok := constInt(p, a); ok {
+						found = k
+						break
+					}
 				}
+				hdr = append(hdr, found)
+				hdrPos = append(hdrPos, call.Pos())
 				return true
 			}
-			if f, ok := calleeOf(p, call).(*types.Func); ok && f.Name() == "Write" && len(call.Args) == 1 {
-				if conv, ok := unparen(call.Args[0]).(*ast.CallExpr); ok && len(conv.Args) == 1 {
-					if s, ok := constStr(p, conv.Args[0]); ok && len(s) >= 2 {
-						lits = append(lits, s)
-						litPos = append(litPos, call.Pos())
+			if f, ok := calleeOf(p, call).(*types.Func); ok && len(call.Args) >= 1 && (f.Name() == "Write" || (f.Pkg() == p.Types && !f.Exported())) {
+				// w.w.Write([]byte("+\n")), or the same through a private helper that counts the bytes
+				for _, a := range call.Args {
+					if conv, ok := unparen(a).(*ast.CallExpr); ok && len(conv.Args) == 1 {
+						if s, ok := constStr(p, conv.Args[0]); ok && len(s) >= 2 {
+							lits = append(lits, s)
+							litPos = append(litPos, call.Pos())
+						}
 					}
 				}
 			}
